@@ -12,12 +12,12 @@ ASSUME = [
 def run(tier: str, seed: int):
     if tier == 'quick':
         cfgs = list(F.fam_shapes(1, 4, batch=2)) + list(F.fam_variants(3, batch=2))
-        serial = list(F.fam_shapes(1, 3, batch=1)) + list(F.fam_variants(2))
+        serial = list(F.fam_shapes(1, 3, batch=1)) + list(F.fam_variants(2)) + list(F.fam_post_init(2))
         rule = ('all DAG shapes n<=4 x every requested subset x every pre-cached subset of its closure, batch<=2, '
                 'every completion order; n<=3 x placements x duplication x type assignments x request '
                 'orders/duplicates; real SerialRunner slice n<=3')
         e3c = (list(F.fam_e3(F.fam_shapes(1, 3), workers=(1, 2), liveness=False)) + list(F.fam_e3(F.fam_shapes(3, 3, pre=False), workers=(None,)))
-               + list(F.fam_e3(F.fam_variants(2), workers=(2,), liveness=False))
+               + list(F.fam_e3(F.fam_variants(2), workers=(2,), liveness=False)) + list(F.fam_e3(F.fam_post_init(2), workers=(2,), liveness=False))
                # default displays on (progress bars, task monitor with a display smaller than the number of workers)
                + list(F.fam_e3(F.fam_shapes(2, 3, pre=False), workers=(2,), backends=('fork',), liveness=False, monitor=True)))
     else:
@@ -27,5 +27,5 @@ def run(tier: str, seed: int):
         rule = ('all DAG shapes n<=5 (batch<=2) and n<=4 (batch<=3, bust_cache) x requested subsets x pre-cached '
                 'subsets; n<=3 variants batch<=3; n<=2 full cross product of placement x dup x types x requests x pre-cache')
         e3c = (list(F.fam_e3(F.fam_shapes(1, 3), workers=(1, 2, None))) + list(F.fam_e3(F.fam_shapes(4, 4, pre=False), workers=(2, 3), cpu_count=3, liveness=False))
-               + list(F.fam_e3(F.fam_variants(3), workers=(2,), liveness=False)))
+               + list(F.fam_e3(F.fam_variants(3), workers=(2,), liveness=False)) + list(F.fam_e3(F.fam_post_init(3), workers=(1, 2), liveness=False)))
     return run_e2_property('C01', tier, seed, cfgs, serial_configs=serial, e3_configs=e3c, hash_slices=([('shapes3', 1), ('shapes3', 2)] if tier == 'quick' else [('shapes3', 1), ('shapes3', 2), ('shapes3', 3), ('shapes4', 1), ('shapes4', 2)]), real_cases=list(F.fam_real(F.real_bases('plain'), workers=(1, 2))), rule=rule, assumptions=ASSUME)
